@@ -167,13 +167,6 @@ func VerifP_C07_BodyCandidates(mode int) {
 	verifReach("end")
 }
 
-// hasPrefixSym: strings.HasPrefix re-stated (the specification must not call the code under test's helpers; strings.HasPrefix is the library).
-func hasPrefixSym(s, p string) bool {
-	if len(p) > len(s) {
-		return false
-	}
-	return s[:len(p)] == p
-}
 
 var _ = lang.Candidates{}
 
